@@ -491,7 +491,6 @@ theorem interp_between (fa fb c : ℝ) :
     · exact div_nonneg_of_nonpos (by linarith) hd.le
     · rw [div_lt_one_of_neg hd]; linarith
 
-example : (1 : ℝ) < 2 ∧ (2 : ℝ) ≤ 5 := by norm_num
 
 open Gen.marching in
 /-- `interpolateVerts` returns the point `v1 + t·(v2 − v1)` of the edge, coordinate by coordinate -/
@@ -895,6 +894,183 @@ theorem weld_nondegenerate {V W : Type} [DecidableEq W] (φ : V → W) (tris : L
 example : Balanced (([(0, 1, 2), (0, 3, 1), (1, 3, 2), (0, 2, 3)] : List (Nat × Nat × Nat)).flatMap triEdges) ∧
     weldTris (fun v : Nat => if v = 3 then 2 else v) [(0, 1, 2), (0, 3, 1), (1, 3, 2), (0, 2, 3)] = [(0, 1, 2), (0, 2, 1)] := by
   refine ⟨balancedB_sound_aux _ (by decide), by decide⟩
+
+/-! ## 7. From lattice-edge ids to the welded mesh: what transfers, and when -/
+
+/-- the corners used by a list of triangles -/
+def trisVerts {V : Type} (tris : List (V × V × V)) : List V := tris.flatMap fun t => [t.1, t.2.1, t.2.2]
+
+theorem edge_verts_aux {V : Type} (tris : List (V × V × V)) (e : V × V) (h : e ∈ tris.flatMap triEdges) :
+    e.1 ∈ trisVerts tris ∧ e.2 ∈ trisVerts tris := by
+  obtain ⟨t, ht, he⟩ := List.mem_flatMap.mp h
+  simp only [triEdges, List.mem_cons, List.not_mem_nil, or_false] at he
+  constructor <;> (apply List.mem_flatMap.mpr; refine ⟨t, ht, ?_⟩; rcases he with rfl | rfl | rfl <;> simp)
+
+/-- **Transfer of "at most once" through the weld.**  If the vertex map (rounded-position id) does not identify two
+    different corners that occur in the mesh, the weld drops no information: no directed edge occurs twice afterwards. -/
+theorem weld_preserves_nodup {V W : Type} [DecidableEq W] (φ : V → W) (tris : List (V × V × V))
+    (hinj : ∀ u ∈ trisVerts tris, ∀ v ∈ trisVerts tris, φ u = φ v → u = v)
+    (hn : (tris.flatMap triEdges).Nodup) : ((weldTris φ tris).flatMap triEdges).Nodup := by
+  have hsub : ((weldTris φ tris).flatMap triEdges).Sublist
+      ((tris.map fun t => (φ t.1, φ t.2.1, φ t.2.2)).flatMap triEdges) :=
+    List.Sublist.flatMap List.filter_sublist triEdges
+  refine hsub.nodup ?_
+  have hEM : (tris.map fun t => (φ t.1, φ t.2.1, φ t.2.2)).flatMap triEdges
+      = (tris.flatMap triEdges).map fun e => (φ e.1, φ e.2) := by
+    rw [List.flatMap_map, List.map_flatMap]; rfl
+  rw [hEM]
+  refine List.Nodup.map_on ?_ hn
+  intro a ha b hb hab
+  obtain ⟨a1, a2⟩ := edge_verts_aux tris a ha
+  obtain ⟨b1, b2⟩ := edge_verts_aux tris b hb
+  simp only [Prod.mk.injEq] at hab
+  exact Prod.ext (hinj _ a1 _ b1 hab.1) (hinj _ a2 _ b2 hab.2)
+
+/-- all triangles of the box, in lattice-edge ids -/
+def boxTris (s : Pt → Bool) (o : Pt) (nx ny nz : Nat) : List (LEdge × LEdge × LEdge) :=
+  (boxCells o nx ny nz).flatMap (cellTris s)
+
+theorem cellTris_edges_aux (s : Pt → Bool) (p : Pt) : (cellTris s p).flatMap triEdges = cellEdges s p := by
+  simp only [cellTris, cellEdges, caseSegsRel, caseSegs, List.flatMap_map, List.map_flatMap, List.map_map]
+  rfl
+
+theorem boxTris_edges_aux (s : Pt → Bool) (o : Pt) (nx ny nz : Nat) :
+    (boxTris s o nx ny nz).flatMap triEdges = boxEdges s o nx ny nz := by
+  simp only [boxTris, boxEdges, List.flatMap_assoc, cellTris_edges_aux]
+
+/-- **Closedness of the welded mesh.**  Box of cells, boundary layer outside, and a vertex identification `φ`
+    (lattice edge ↦ id of the rounded float position) that is injective on the lattice edges that carry a vertex:
+    after `weldTris` the mesh is still closed — every directed edge exactly once, its reverse exactly once — and
+    has no face with a repeated corner.  Without injectivity only the Balanced half survives
+    (`weld_preserves_balance`): that is the known finding C09-touching-at-cutoff. -/
+theorem march_weld_closed {W : Type} [DecidableEq W] (s : Pt → Bool) (o : Pt) (nx ny nz : Nat)
+    (hbd : BoundaryOutside s o nx ny nz) (φ : LEdge → W)
+    (hinj : ∀ u ∈ trisVerts (boxTris s o nx ny nz), ∀ v ∈ trisVerts (boxTris s o nx ny nz), φ u = φ v → u = v) :
+    Balanced ((weldTris φ (boxTris s o nx ny nz)).flatMap triEdges) ∧
+    ((weldTris φ (boxTris s o nx ny nz)).flatMap triEdges).Nodup ∧
+    ∀ t ∈ weldTris φ (boxTris s o nx ny nz), t.1 ≠ t.2.1 ∧ t.1 ≠ t.2.2 ∧ t.2.1 ≠ t.2.2 := by
+  obtain ⟨hb, hn⟩ := march_closed s o nx ny nz hbd
+  refine ⟨weld_preserves_balance φ _ (by rw [boxTris_edges_aux]; exact hb),
+    weld_preserves_nodup φ _ hinj (by rw [boxTris_edges_aux]; exact hn), weld_nondegenerate φ _⟩
+
+/-- without injectivity, always: the welded mesh of any such box is balanced -/
+theorem march_weld_balanced {W : Type} [DecidableEq W] (s : Pt → Bool) (o : Pt) (nx ny nz : Nat)
+    (hbd : BoundaryOutside s o nx ny nz) (φ : LEdge → W) :
+    Balanced ((weldTris φ (boxTris s o nx ny nz)).flatMap triEdges) :=
+  weld_preserves_balance φ _ (by rw [boxTris_edges_aux]; exact march_closed_balanced s o nx ny nz hbd)
+
+/-! ## 8. Every emitted vertex lies on a sign-changing lattice edge (assembled) -/
+
+section emitted
+open Gen.marching
+
+/-- the sign pattern of a sample grid, as the code computes it: inside ⇔ `value < cutoff` -/
+noncomputable def signOf (G : Pt → ℝ) (c : ℝ) : Pt → Bool := fun q => decide (G q < c)
+
+theorem table_tri_edges_lt : ∀ b0 b1 b2 b3 b4 b5 b6 b7 : Bool,
+    (caseTris (caseIndex (bits8 b0 b1 b2 b3 b4 b5 b6 b7))).all (fun t => decide (t.1 < 12 ∧ t.2.1 < 12 ∧ t.2.2 < 12)) = true := by
+  decide +kernel
+
+theorem corner_lt_aux : ∀ e, e < 12 → cA e < 8 ∧ cB e < 8 := by decide
+
+theorem cellBits_getD_aux (s : Pt → Bool) (p : Pt) (i : Nat) (hi : i < 8) :
+    (cellBits s p).getD i false = s (padd p (cornerOff i)) := by
+  interval_cases i <;> rfl
+
+/-- **Every emitted vertex lies on a sign-changing lattice edge, at the interpolated position inside it.**
+    For any sample grid `G`, cutoff `c`, cell `p`, any triangle the table emits for that cell and any of its three
+    corners (cube edge `e`): the two end samples of the lattice edge `e` lies on are on different sides of the cutoff,
+    so the interpolation parameter of `interpolateVerts` is in [0, 1].  (Assembles `table_edges_cross`, the case-index
+    computation and `interp_between`.) -/
+theorem emitted_vertex_on_crossing_edge (G : Pt → ℝ) (c : ℝ) (p : Pt) (t : Nat × Nat × Nat)
+    (ht : t ∈ caseTris (caseIndex (cellBits (signOf G c) p))) (e : Nat) (he : e = t.1 ∨ e = t.2.1 ∨ e = t.2.2) :
+    ((G (padd p (cornerOff (cA e))) < c ∧ c ≤ G (padd p (cornerOff (cB e)))) ∨
+     (G (padd p (cornerOff (cB e))) < c ∧ c ≤ G (padd p (cornerOff (cA e))))) ∧
+    0 ≤ interpolationValueFromCutoff (G (padd p (cornerOff (cA e)))) (G (padd p (cornerOff (cB e)))) c ∧
+    interpolationValueFromCutoff (G (padd p (cornerOff (cA e)))) (G (padd p (cornerOff (cB e)))) c ≤ 1 := by
+  set s := signOf G c with hs
+  have hx := table_edges_cross (s (padd p (cornerOff 0))) (s (padd p (cornerOff 1))) (s (padd p (cornerOff 2)))
+    (s (padd p (cornerOff 3))) (s (padd p (cornerOff 4))) (s (padd p (cornerOff 5))) (s (padd p (cornerOff 6)))
+    (s (padd p (cornerOff 7)))
+  have hl := table_tri_edges_lt (s (padd p (cornerOff 0))) (s (padd p (cornerOff 1))) (s (padd p (cornerOff 2)))
+    (s (padd p (cornerOff 3))) (s (padd p (cornerOff 4))) (s (padd p (cornerOff 5))) (s (padd p (cornerOff 6)))
+    (s (padd p (cornerOff 7)))
+  rw [List.all_eq_true] at hx hl
+  have hx' := hx t ht
+  have hl' := hl t ht
+  simp only [decide_eq_true_eq] at hl'
+  rw [List.all_eq_true] at hx'
+  have he12 : e < 12 := by rcases he with rfl | rfl | rfl <;> omega
+  have hmem : e ∈ [t.1, t.2.1, t.2.2] := by rcases he with rfl | rfl | rfl <;> simp
+  have hne := hx' e hmem
+  obtain ⟨ha8, hb8⟩ := corner_lt_aux e he12
+  change ((cellBits s p).getD (cA e) false != (cellBits s p).getD (cB e) false) = true at hne
+  rw [cellBits_getD_aux s p _ ha8, cellBits_getD_aux s p _ hb8] at hne
+  simp only [hs, signOf, bne_iff_ne, ne_eq, decide_eq_decide] at hne
+  have hcross : (G (padd p (cornerOff (cA e))) < c ∧ c ≤ G (padd p (cornerOff (cB e)))) ∨
+      (G (padd p (cornerOff (cB e))) < c ∧ c ≤ G (padd p (cornerOff (cA e)))) := by
+    by_cases h1 : G (padd p (cornerOff (cA e))) < c
+    · left; refine ⟨h1, ?_⟩; by_contra h2; rw [not_le] at h2; exact hne ⟨fun _ => h2, fun _ => h1⟩
+    · right; rw [not_lt] at h1; refine ⟨?_, h1⟩; by_contra h2; rw [not_lt] at h2
+      exact hne ⟨fun h => absurd h (not_lt.mpr h1), fun h => absurd h (not_lt.mpr h2)⟩
+  refine ⟨hcross, ?_⟩
+  rcases hcross with h | h
+  · have := (interp_between _ _ c).1 h.1 h.2; exact ⟨this.1.le, this.2⟩
+  · have := (interp_between _ _ c).2 h.1 h.2; exact ⟨this.1, this.2.le⟩
+
+/-- **… hence within one cell of the true isosurface.**  If moreover the stored samples are the values of a field whose
+    restriction `F` to that lattice edge (`F 0`, `F 1` = the two end samples) is continuous, then some point of the edge
+    is ON the isosurface and the emitted vertex `v1 + τ (v2 − v1)` is within one edge length of it (`|τ − τ'| ≤ 1`). -/
+theorem emitted_vertex_near_isosurface (G : Pt → ℝ) (c : ℝ) (p : Pt) (t : Nat × Nat × Nat)
+    (ht : t ∈ caseTris (caseIndex (cellBits (signOf G c) p))) (e : Nat) (he : e = t.1 ∨ e = t.2.1 ∨ e = t.2.2)
+    (F : ℝ → ℝ) (hF : ContinuousOn F (Set.Icc 0 1))
+    (h0 : F 0 = G (padd p (cornerOff (cA e)))) (h1 : F 1 = G (padd p (cornerOff (cB e)))) (v1 v2 : V3 ℝ) :
+    ∃ τ τ', τ = interpolationValueFromCutoff (G (padd p (cornerOff (cA e)))) (G (padd p (cornerOff (cB e)))) c ∧
+      (interpolateVerts v1 v2 (G (padd p (cornerOff (cA e)))) (G (padd p (cornerOff (cB e)))) c).x = v1.x + τ * (v2.x - v1.x) ∧
+      (interpolateVerts v1 v2 (G (padd p (cornerOff (cA e)))) (G (padd p (cornerOff (cB e)))) c).y = v1.y + τ * (v2.y - v1.y) ∧
+      (interpolateVerts v1 v2 (G (padd p (cornerOff (cA e)))) (G (padd p (cornerOff (cB e)))) c).z = v1.z + τ * (v2.z - v1.z) ∧
+      0 ≤ τ ∧ τ ≤ 1 ∧ 0 ≤ τ' ∧ τ' ≤ 1 ∧ F τ' = c ∧ |τ - τ'| ≤ 1 := by
+  obtain ⟨hcross, hτ0, hτ1⟩ := emitted_vertex_on_crossing_edge G c p t ht e he
+  rw [← h0, ← h1] at hcross
+  obtain ⟨τ', a, b, hFc, habs⟩ := vertex_near_isosurface F hF c _ ⟨hτ0, hτ1⟩ hcross
+  obtain ⟨sx, sy, sz⟩ := interp_on_segment v1 v2 (G (padd p (cornerOff (cA e)))) (G (padd p (cornerOff (cB e)))) c
+  exact ⟨_, τ', rfl, sx, sy, sz, hτ0, hτ1, a, b, hFc, habs⟩
+
+/-- non-vacuity: one inside sample at the origin; the cell at the origin (case 1) emits the triangle (0, 8, 3) -/
+example : ((0 : Nat), (8 : Nat), (3 : Nat)) ∈
+    caseTris (caseIndex (cellBits (signOf (fun q => if q = (0, 0, 0) then (-1 : ℝ) else 1) 0) (0, 0, 0))) := by
+  have h : cellBits (signOf (fun q => if q = ((0:Int), (0:Int), (0:Int)) then (-1 : ℝ) else 1) 0) (0, 0, 0)
+      = [true, false, false, false, false, false, false, false] := by
+    simp only [cellBits, signOf, padd]
+    norm_num [cornerOff, cubeDataIndexIncrements, ptOfRow]
+  rw [h]; decide
+
+-- (D) instantiated hypotheses
+example : 0 < interpolationValueFromCutoff (-1 : ℝ) 3 0 ∧ interpolationValueFromCutoff (-1 : ℝ) 3 0 ≤ 1 :=
+  (interp_between (-1) 3 0).1 (by norm_num) (by norm_num)
+example : 0 ≤ interpolationValueFromCutoff (3 : ℝ) (-1) 0 ∧ interpolationValueFromCutoff (3 : ℝ) (-1) 0 < 1 :=
+  (interp_between 3 (-1) 0).2 (by norm_num) (by norm_num)
+example : interpolateVerts (⟨0, 0, 0⟩ : V3 ℝ) ⟨1, 0, 0⟩ (-1) 3 0 = interpolateVerts ⟨1, 0, 0⟩ ⟨0, 0, 0⟩ 3 (-1) 0 :=
+  interp_symmetric _ _ _ _ _ (by norm_num)
+
+/-- non-vacuity of `skipped_cells_outside`: one allocated block, one inside sample in its middle: the padding
+    hypothesis holds, and the cell at local x = 99 IS skipped (its +x neighbour block was never allocated) -/
+example :
+    let bl : Blocks Unit := fun b => if b = ((0 : Int), (0 : Int), (0 : Int)) then some (fun _ => ()) else none
+    let inside : Pt → Prop := fun q => q = (50, 50, 50)
+    (∀ q, inside q → ∀ d : Pt, -1 ≤ d.1 → d.1 ≤ 1 → -1 ≤ d.2.1 → d.2.1 ≤ 1 → -1 ≤ d.2.2 → d.2.2 ≤ 1 →
+      (bl (chunkOf (padd q d))).isSome) ∧ fetchCell bl (0, 0, 0) 99 0 0 = none := by
+  refine ⟨?_, by decide⟩
+  intro q hq d h1 h2 h3 h4 h5 h6
+  obtain ⟨d1, d2, d3⟩ := d
+  simp only at h1 h2 h3 h4 h5 h6
+  subst hq
+  have e1 : (50 + d1) / 100 = 0 := by omega
+  have e2 : (50 + d2) / 100 = 0 := by omega
+  have e3 : (50 + d3) / 100 = 0 := by omega
+  simp [chunkOf, padd, marchingSectionSize, e1, e2, e3]
+
+end emitted
 
 end C09
 end PolyVerif
